@@ -196,7 +196,8 @@ def get_smallmij(vi: np.ndarray, vj: np.ndarray, W: np.ndarray, alpha_vec: np.nd
     """
     prod = np.matmul(W, vj - vi)
     prod[prod < 0] = 0
-    smallmij = (prod / alpha_vec).min()
+    # alpha_vec is (n_constraint, 1): flatten so that each facet is divided by its own alpha.
+    smallmij = (prod / np.reshape(alpha_vec, -1)).min()
 
     return smallmij
 
